@@ -804,17 +804,26 @@ m("C09", "filler-shares-scope", C,
   '''            "SLOT(__stream, econtext.copy(), rcontext)",''',
   '''            "SLOT(__stream, econtext, rcontext)",''')
 m("C09", "macro-gets-callers-scope", C,
-  '''                "__m(__stream, econtext.copy(), "''',
-  '''                "__m(__stream, econtext, "''')
+  '''        callbacks = template("SCOPE = econtext.copy()", SCOPE=scope)''',
+  '''        callbacks = template("SCOPE = econtext", SCOPE=scope)''')
+m("C09", "fillers-stored-in-callers-scope", C,
+  '''                "_slots = SCOPE[KEY] = DEQUE((NAME,))",
+                SCOPE=scope,''',
+  '''                "_slots = econtext[KEY] = DEQUE((NAME,))",''')
+m("C05", "macro-gets-callers-scope", C,
+  '''        callbacks = template("SCOPE = econtext.copy()", SCOPE=scope)''',
+  '''        callbacks = template("SCOPE = econtext", SCOPE=scope)''')
 m("C09", "no-merge-after-external-macro", C,
   '''            self._merge_globals(node, template(
-                "__m(__stream, econtext.copy(), "
-                "rcontext, __i18n_domain, __i18n_context, target_language)"
+                "__m(__stream, SCOPE, "
+                "rcontext, __i18n_domain, __i18n_context, target_language)",
+                SCOPE=scope,
             ))
         )''',
   '''            template(
-                "__m(__stream, econtext.copy(), "
-                "rcontext, __i18n_domain, __i18n_context, target_language)"
+                "__m(__stream, SCOPE, "
+                "rcontext, __i18n_domain, __i18n_context, target_language)",
+                SCOPE=scope,
             )
         )''')
 m("C09", "macroname-global", ZP,
@@ -1899,8 +1908,15 @@ m("C05", "onerror-scope-restored-without-globals", C,
   '''            "DICT.clear(econtext); econtext.update(scope)",
             scope=scope, DICT=Builtin("dict")''')
 m("C05", "onerror-scope-snapshot-shared", C,
-  '''        scope = identifier("__scope", id(node))''',
-  '''        scope = identifier("__scope", node.name)''')
+  '''        scope = identifier("__scope", id(node))
+        body += template(''',
+  '''        scope = identifier("__scope", node.name)
+        body += template(''')
+m("C09", "macro-scope-copy-shared", C,
+  '''        scope = identifier("__scope", id(node))
+        callbacks = template(''',
+  '''        scope = "__scope"
+        callbacks = template(''')
 m("C11", "location-counts-cr", "tokenize.py",
   "        line = body.count('\\n')",
   "        line = body.count('\\n') + body.count('\\r')")
